@@ -52,8 +52,11 @@ func ModelSafe(u *Universe, d *Desc, v reflect.Value) bool {
 			}
 		}
 		return true
-	case KDictE:
-		m := access(v.FieldByName("m"))
+	case KDictE, KDict:
+		m := v
+		if d.Kind == KDictE {
+			m = access(v.FieldByName("m"))
+		}
 		vals := access(m.FieldByName("values"))
 		if access(m.FieldByName("keys")).Len() != vals.Len() {
 			return false
